@@ -234,7 +234,9 @@ def encode_to_tbcd(input: Any) -> str:
         else:
             bits = "f" + str(bits)
             output += bits
-            return output
+            offset += 2
+
+    return output
 
 
 def decode_from_tbcd(input: str) -> str:
@@ -248,4 +250,6 @@ def decode_from_tbcd(input: str) -> str:
             offset += 2
         else:
             output += bits[1]
-            return output
+            offset += 2
+
+    return output
